@@ -206,7 +206,8 @@ func (e *env) concretize(d *txDesc, height int64) (module.Transaction, *txRec, e
 	return tx, r, nil
 }
 
-const shortTimeoutMillis = 150
+// long enough that a block of tiny transactions does not time out by itself on a loaded machine
+const shortTimeoutMillis = 250
 
 func callsHanger(ops []op) bool {
 	for _, o := range ops {
@@ -308,7 +309,13 @@ func (e *env) execBlock(parent module.Transition, height int64, steps []*step, c
 			return nil, err
 		}
 		if len(recs[i].Errs) > 0 {
-			return nil, fmt.Errorf("script problem: %v", recs[i].Errs)
+			if hangs && module.Status(rc.Status) == module.StatusTimeout {
+				// the short transaction timeout fired on its own (overloaded machine): the record is
+				// still a legitimate execution (a failed transaction), the doubles' complaints are not
+				out.Mism = append(out.Mism, fmt.Sprintf("blk %d tx %d: timed out by itself: %v", blk, i, recs[i].Errs))
+			} else {
+				return nil, fmt.Errorf("script problem: %v", recs[i].Errs)
+			}
 		}
 		bt.Txs = append(bt.Txs, txTrace{Tx: s.Tx, Rc: rc, Post: post})
 		// comparison with the specification's prediction (diagnostic; the verdict is Trace_TxExec's)
@@ -440,7 +447,7 @@ func TestReplay(t *testing.T) {
 		t.Skip("driven by tools/check.py")
 	}
 	out := tlaio.OpenOut()
-	e, err := newEnv(cfgFromEnv(), []string{"a", "b", "c", "d"}, []string{"x", "y"}, []string{"s"}, []string{"g", "z"}, fmt.Sprint(tlaio.Seed()))
+	e, err := newEnv(cfgFromEnv(), []string{"a", "b", "c", "d"}, []string{"x", "y"}, []string{"s", "e"}, []string{"g", "z"}, fmt.Sprint(tlaio.Seed()))
 	if err != nil {
 		t.Fatal(err)
 	}
